@@ -154,7 +154,7 @@ func runBMCFused(l *Loaded, job BMCJob, timeoutMs int) (res BMCResult) {
 			res.CFA[name] = append(res.CFA[name], s)
 		}
 	}
-	s, err := NewSolver("z3", timeoutMs)
+	s, err := NewSolverMem("z3", timeoutMs, 4*z3MemMB)
 	if err != nil {
 		res.Status, res.Error = "error", err.Error()
 		return
